@@ -86,18 +86,21 @@ impl PrettyPrint {
 
         // Left align the text
         // (everything is counted in characters, like the columns of a range)
+        // (only the indentation is left out: any other white-space character - a form feed,
+        // a no-break space - is no blank for the lexer and may be what a diagnostic is about)
         let chars: Vec<char> = text.chars().collect();
         let first_non_ws = chars
             .iter()
-            .position(|c| !c.is_whitespace())
+            .position(|c| *c != ' ' && *c != '\t')
             .unwrap_or(0);
 
         // HACK: Use the text line so we have the same tab spacing
+        // (tabs only: a carriage return in the marker line would send the marker to column 0)
         let mut base: Vec<char> = chars
             .get(first_non_ws..)
             .unwrap_or_default()
             .iter()
-            .map(|c| if c.is_whitespace() { *c } else { ' ' })
+            .map(|c| if *c == '\t' { *c } else { ' ' })
             .collect();
 
         // Arrows pointing the the relevant position
@@ -107,7 +110,8 @@ impl PrettyPrint {
         base.extend(std::iter::repeat('^').take(end.saturating_sub(start)));
         let base: String = base.into_iter().collect();
 
-        let aligned = text.trim();
+        let aligned: String = chars.get(first_non_ws..).unwrap_or_default().iter().collect();
+        let aligned = aligned.trim_end();
         format!("{spc} |\n {line} | {aligned}\n{spc} | {base}\n")
     }
 
